@@ -1,9 +1,9 @@
 (** C10 — property theorems (statements and [exact]s only).
-    PARTIAL: "told so with the replier-already-bound error and then closed" and re-binding are
-    stated as executable predicates (ReqRepSpec.obs_c10_ok / obs_c10_final_ok) evaluated on
-    every implementation trace; the client-side classification of the error code is read from
+    PARTIAL: that the rejection completes (nothing stays "being dealt with" once the rejected
+    sink accepts data) and re-binding after the bound replier leaves are executable predicates
+    (ReqRepSpec.obs_c10_ok / obs_c10_final_ok) evaluated on every implementation trace; the client-side classification of the error code is read from
     the source by the translator (see the check's evidence). *)
-Require Import Selium.Base Selium.PubSub Selium.ReqRep Selium.ReqRepSpec Selium.P_ReqRep.
+Require Import Selium.Base Selium.PubSub Selium.ReqRep Selium.ReqRepSpec Selium.P_ReqRep Selium.P_ReqRepOrder.
 Open Scope N_scope.
 
 (** requests are only ever handed to a replier that was bound; a refused replier is never bound
@@ -15,6 +15,18 @@ Print Assumptions c10_single_bound.
 Theorem c10_error_code_is_replier_already_bound : REPLIER_ALREADY_BOUND_CODE = 5.
 Proof. reflexivity. Qed.
 Print Assumptions c10_error_code_is_replier_already_bound.
+
+(** "told so with the replier-already-bound error and then closed": in every reachable state, every
+    replier that was refused because another one was bound is either still being dealt with (its
+    rejection sits in the one-slot buffer, or the router is at one of the three calls on its sink),
+    or [poll_close] has completed on its sink, or its sink failed before the error frame could be
+    written; and [poll_close] is only ever completed on a sink that had accepted the error frame *)
+Theorem c10_refused_replier_told_then_closed : forall tr s, rrun rinit tr = Some s ->
+  (forall l, In l (h_closed (rgh s)) -> In l (h_told (rgh s)))
+  /\ (forall l, In l (h_rejected (rgh s)) ->
+         In l (h_closed (rgh s)) \/ In l (h_rej_failed (rgh s)) \/ rejecting s l).
+Proof. exact rr_rejected_told_then_closed. Qed.
+Print Assumptions c10_refused_replier_told_then_closed.
 
 (** Non-vacuity: a second replier arrives while the first is bound and its sink is slow *)
 Example c10_example :
